@@ -130,6 +130,138 @@ pub fn run(tier: Tier) -> Run {
         }
         run.outcome("class_sequences", seqn);
     }
+    // id-relation sequences (values typed by values, id rings, use before declaration) through the same calls
+    {
+        let seqs = crate::universe::id_relation_sequences(tier.pick(3, 4));
+        let res: Vec<Option<Viol>> = seqs
+            .par_iter()
+            .map(|(n, v)| {
+                let mut words = crate::model::header(0x0001_0300, 0, 20);
+                for i in v {
+                    words.extend(crate::model::enc(i));
+                }
+                check_mutant("id-relations", &Mutant { what: format!("ids[{}]", n), bytes: crate::model::words_to_bytes(&words) }).0
+            })
+            .collect();
+        run.outcome("id_relation_sequences", seqs.len() as u64);
+        for v in res.into_iter().flatten() {
+            run.add(v);
+        }
+    }
+    // LARGE well-formed modules whose ids are dense: K type declarations %1..%K (so the id bound is K+1 and the module has
+    // more words than ids), then a constant and a value of the last and of the middle type. Anything sized after the
+    // header bound or after the number of ids seen (tables, caps, 16-/17-bit counters) is exercised at full size.
+    {
+        let ks: Vec<u32> = if tier == Tier::Thorough { vec![65_534, 65_535, 65_536, 70_000, 131_072, 300_000, 1_100_000, 2_200_000] } else { vec![65_535, 65_536, 70_000, 131_072, 300_000, 1_100_000] };
+        let res: Vec<Option<Viol>> = ks
+            .par_iter()
+            .map(|&k| {
+                let mut words = crate::model::header(0x0001_0300, 0, k + 10);
+                for i in 1..=k {
+                    // widths are all different and all unsupported except the middle and the last one
+                    let w = if i == k { 64 } else if i == k / 2 { 16 } else { 1000 + i };
+                    words.extend(crate::model::enc(&crate::model::Inst::new("TypeInt", None, Some(i), vec![crate::model::Arg::Lit32(w), crate::model::Arg::Lit32(0)])));
+                }
+                words.extend(crate::model::enc(&crate::model::Inst::new("Constant", Some(k), Some(k + 1), vec![crate::model::Arg::Lit64(0x1_0000_0002)])));
+                words.extend(crate::model::enc(&crate::model::Inst::new("Constant", Some(k / 2), Some(k + 2), vec![crate::model::Arg::Lit32(0xFFFF)])));
+                words.extend(crate::model::enc(&crate::model::Inst::new("Function", Some(k - 1), Some(k + 6), vec![crate::model::Arg::Mask("FunctionControl", 0), crate::model::Arg::IdRef(k - 2)])));
+                words.extend(crate::model::enc(&crate::model::Inst::new("Label", None, Some(k + 4), vec![])));
+                words.extend(crate::model::enc(&crate::model::Inst::new("Undef", Some(k), Some(k + 3), vec![])));
+                words.extend(crate::model::enc(&crate::model::Inst::new("Switch", None, None, vec![crate::model::Arg::IdRef(k + 3), crate::model::Arg::IdRef(k + 4), crate::model::Arg::Lit64(5), crate::model::Arg::IdRef(k + 5)])));
+                words.extend(crate::model::enc(&crate::model::Inst::new("Label", None, Some(k + 5), vec![])));
+                words.extend(crate::model::enc(&crate::model::Inst::new("Return", None, None, vec![])));
+                words.extend(crate::model::enc(&crate::model::Inst::new("FunctionEnd", None, None, vec![])));
+                let bytes = crate::model::words_to_bytes(&words);
+                let m = Mutant { what: format!("dense-ids:{}", k), bytes };
+                let (v, o, _) = check_mutant("dense-big-module", &m);
+                if v.is_some() {
+                    return v.map(|mut v| {
+                        v.replay = serde_json::json!({"kind": "c04-dense", "types": k});
+                        v
+                    });
+                }
+                if o != "loaded_assembled_disassembled" {
+                    return Some(crate::report::viol("C04:dense-big-module:not-loaded", format!("a well-formed module of {} type declarations with dense ids is not loaded ({})", k, o), serde_json::json!({"kind": "c04-dense", "types": k})));
+                }
+                None
+            })
+            .collect();
+        run.outcome("dense_big_modules", ks.len() as u64);
+        for v in res.into_iter().flatten() {
+            run.add(v);
+        }
+    }
+    // ONE consumer object used for two parses in a row (the Loader carries its state from one parse to the next): first
+    // binaries that stop in every loader state, second binaries of every opcode: no panic in either parse
+    {
+        let g = crate::golden::golden();
+        let firsts: Vec<Vec<crate::model::Inst>> = {
+            use crate::model::{Arg, Inst};
+            let f = Inst::new("Function", Some(2), Some(5), vec![Arg::Mask("FunctionControl", 0), Arg::IdRef(6)]);
+            let l = Inst::new("Label", None, Some(7), vec![]);
+            let r = Inst::new("Return", None, None, vec![]);
+            let e = Inst::new("FunctionEnd", None, None, vec![]);
+            let nop = Inst::new("Nop", None, None, vec![]);
+            let cap = Inst::new("Capability", None, None, vec![Arg::Enum("Capability", 1)]);
+            vec![
+                vec![],
+                vec![cap.clone()],
+                vec![f.clone()],
+                vec![f.clone(), l.clone()],
+                vec![f.clone(), l.clone(), nop.clone()],
+                vec![f.clone(), l.clone(), r.clone()],
+                vec![f.clone(), l.clone(), r.clone(), e.clone()],
+                vec![f.clone(), l.clone(), r.clone(), l.clone()],
+                vec![f.clone(), l.clone(), f.clone()],
+                vec![l.clone()],
+                vec![r.clone()],
+                vec![f.clone(), e.clone(), f.clone(), l.clone()],
+            ]
+        };
+        let mut seconds: Vec<Vec<crate::model::Inst>> = g.insts.iter().map(|gi| vec![crate::universe::minimal(gi)]).collect();
+        seconds.extend(firsts.iter().cloned());
+        let pairs: Vec<(usize, usize, usize)> = (0..firsts.len()).flat_map(|a| (0..seconds.len()).flat_map(move |b| (0..3usize).map(move |cut| (a, b, cut)))).collect();
+        let res: Vec<Option<Viol>> = pairs
+            .par_iter()
+            .map(|&(a, b, cut)| {
+                let mk = |v: &Vec<crate::model::Inst>| {
+                    let mut w = crate::model::header(0x0001_0300, 0, 100);
+                    for i in v {
+                        w.extend(crate::model::enc(i));
+                    }
+                    w
+                };
+                let mut w1 = mk(&firsts[a]);
+                // cut 0: whole; 1: last word dropped (stream error inside the last instruction); 2: a surplus word 0 appended
+                match cut {
+                    1 if w1.len() > 5 => {
+                        w1.pop();
+                    }
+                    2 => w1.push(0),
+                    _ => {}
+                }
+                let w2 = mk(&seconds[b]);
+                let r = guarded(|| {
+                    let mut loader = rspirv::dr::Loader::new();
+                    let b1 = crate::model::words_to_bytes(&w1);
+                    let b2 = crate::model::words_to_bytes(&w2);
+                    let _ = rspirv::binary::parse_bytes(&b1, &mut loader);
+                    let _ = rspirv::binary::parse_bytes(&b2, &mut loader);
+                    let _ = rspirv::binary::parse_words(&w2, &mut loader);
+                    let m = loader.module();
+                    let _ = m.disassemble();
+                });
+                match r {
+                    Ok(()) => None,
+                    Err(p) => Some(crate::report::viol(format!("C04:panic@{}:loader-reused", panic_class(&p)), format!("one Loader used for two parses in a row panics: {} (first binary {:?}, variant {}, second {:?})", p, firsts[a].iter().map(|i| i.short()).collect::<Vec<_>>(), cut, seconds[b].iter().map(|i| i.short()).collect::<Vec<_>>()), serde_json::json!({"kind": "c04-loader-reuse", "first": w1, "second": w2}))),
+                }
+            })
+            .collect();
+        run.outcome("loader_reuse_pairs", pairs.len() as u64);
+        for v in res.into_iter().flatten() {
+            run.add(v);
+        }
+    }
     // every narrow typed constant (all 16-bit patterns x high halves behind 8-/16-bit types) through the disassembler
     {
         let (n, vs) = crate::checks::c07::narrow_sweep(tier);
